@@ -473,8 +473,9 @@ int gsm48_decode_mobile_alloc(struct gsm_sysinfo_freq *freq,
 			freq[i].mask &= ~FREQ_TYPE_HOPP;
 	}
 
-	/* generating list of all frequencies (1..1023,0) */
-	for (i = 1; i <= 1024; i++) {
+	/* generating list of all frequencies (1..1023,0);
+	 * an empty bitmap (len == 0) refers to no frequency at all */
+	for (i = 1; i <= 1024 && j < (len << 3); i++) {
 		if ((freq[i & 1023].mask & FREQ_TYPE_SERV)) {
 			LOGP(DRR, LOGL_INFO, "Serving cell ARFCN #%d: %d\n",
 				j, i & 1023);
